@@ -2,6 +2,7 @@
 import json
 import os
 import random
+import string
 import shutil
 import subprocess
 import sys
@@ -81,6 +82,35 @@ def build_pool(seed, k):
             fixed.append(call('eu.vat', 'validate', cc + v2))
             fixed.append(call('vatin', 'validate', cc + v2))
             fixed.append(call('eu.vat', 'guess_country', v2))
+    # sibling entries of nested registries: two numbers that share the first registry level and differ below it (a cache
+    # keyed on the first level only answers the second with the first one's data)
+    def siblings(regname, build, consumers, nparents=8):
+        roots, _p = _parsed(regname)
+        parents = [e for e in roots if e.ranges and len([k for k in e.children if k.ranges]) >= 2]
+        for e in rnd.sample(parents, min(nparents, len(parents))):
+            kids = rnd.sample([k for k in e.children if k.ranges], 2)
+            for k in kids:
+                num = build(e.ranges[0][0], k.ranges[0][0])
+                for mn, fn in consumers:
+                    fixed.append(call(mn, fn, num))
+    siblings('oui', lambda a, b: ':'.join(((a + b + '0' * 12)[:12])[i:i + 2] for i in range(0, 12, 2)).lower(),
+             [('mac', 'get_manufacturer'), ('mac', 'get_oui'), ('mac', 'get_iab'), ('mac', 'validate')])
+    siblings('imsi', lambda a, b: (a + b + '0' * 15)[:15], [('imsi', 'info'), ('imsi', 'split')])
+    siblings('nz/banks', lambda a, b: (a + b + '0' * 16)[:16], [('nz.bankaccount', 'info')])
+    siblings('isbn', lambda a, b: (a + b + '1' * 13)[:13], [('isbn', 'split'), ('isbn', 'format')])
+    siblings('cn/loc', lambda a, b: a, [('cn.ric', 'get_birth_place')], nparents=0)
+    # clock readers: the same call under different system dates (a date captured at import time or cached from an earlier
+    # call answers later calls with a stale "today"); the worker sets the date before resolving the function
+    for mn in gen.CLOCK_MODULES:
+        if mn not in mods:
+            continue
+        nums = gen.pool(mn)[:2] + [w for w in gen.class_sweep(mn, nbase=1, classes=(string.digits,)) if w][:25]
+        for v in rnd.sample(nums, min(8, len(nums))):
+            for ol in gen.option_lists(mn):
+                for clk in ('1990-01-01', '2031-01-01', '2100-12-31'):
+                    c = call(mn, 'validate', v, **gen.dec_opts(ol))
+                    c['clock'] = clk
+                    fixed.append(c)
     # dispatchers: alias and non-member prefixes that must keep being rejected / accepted whatever was cached before
     for cc, mn in [('GB', 'gb.vat'), ('XI', 'gb.vat'), ('UK', 'gb.vat'), ('EL', 'gr.vat'), ('GR', 'gr.vat'), ('NO', 'no.mva'), ('CH', 'ch.vat'),
                    ('US', 'us.ein'), ('EU', 'eu.oss'), ('IM', 'eu.oss'), ('XX', 'nl.btw'), ('IS', 'is_.vsk'), ('IN', 'in_.gstin')]:
@@ -222,15 +252,44 @@ def run(ctx):
             for o in outs[:4]:
                 for sq in o.get('sample_sequences', [])[:2]:
                     res.sample({'history': sq})
+            # (1b) clock histories: per clock-reading module one fresh worker that makes the module's calls under an early
+            # date, then under later dates, then under the early date again (a "today" captured at import or cached from an
+            # earlier call answers later calls with a stale date)
+            byclock = {}
+            for i, sp in enumerate(pool):
+                if sp.get('clock'):
+                    byclock.setdefault(sp['m'], []).append(i)
+            cjobs = []
+            for mn, idxs in sorted(byclock.items()):
+                order = sorted(idxs, key=lambda i: pool[i]['clock'])
+                seq = order + sorted(idxs, key=lambda i: pool[i]['clock'], reverse=True)
+                cjobs.append((mn, seq))
+            couts = tp.map(lambda j: run_job({'mode': 'seq', 'steps': [pool[i] for i in j[1]]})['outcomes'], cjobs)
+            for (mn, seq), got in zip(cjobs, couts):
+                res.hist['clock-histories'] += 1
+                res.nt('clock-history', mn)
+                for pos, (i, g) in enumerate(zip(seq, got)):
+                    res.evals += 1
+                    if g != pristine[i]:
+                        steps = [pool[k] for k in seq[:pos + 1]]
+
+                        def fails(trial, want=pristine[i]):
+                            o = run_job({'mode': 'seq', 'steps': trial})['outcomes']
+                            return bool(o) and o[-1] != want
+                        steps = ddmin(steps, fails)
+                        prop_hist({'steps': steps}, res)
+                        break
             # (2) thread trials
             rnd = random.Random(core.subseed(ctx.seed, 'C13', 'threads'))
             trials = []
+            # the harness clock is one per process, so thread trials only use calls made under the default date
+            tpool = [s for s in pool if not s.get('clock')]
             for t in range(ctx.q(24, 600)):
                 nthreads = rnd.choice([2, 4, 16])
-                common = rnd.sample(pool, min(len(pool), 6))
+                common = rnd.sample(tpool, min(len(tpool), 6))
                 lists = []
                 for _ in range(nthreads):
-                    own = rnd.sample(pool, 4)
+                    own = rnd.sample(tpool, 4)
                     lst = list(common) + own
                     rnd.shuffle(lst)
                     lists.append(lst[:8])
